@@ -276,6 +276,9 @@ var hashioImpl = map[string]core.Adapter{
 		if err != nil {
 			return "err" // unsupported algorithm or malformed hex text: error texts are not compared
 		}
+		// the verifier was made for the entry as it was: the variable is reused for the next entry
+		// (a loop that opens all verifiers first) before the data is streamed
+		fh.Hash, fh.Algorithm, fh.Size, fh.Filename = "00", "md5", 0, "next-entry"
 		// arbitrary chunking derived from the data itself
 		for i, step := 0, 1+len(data)%7; i < len(data); i += step {
 			end := i + step
